@@ -268,6 +268,14 @@ pub fn check(case: &Case, rec: &mut Rec) -> Option<Failure> {
                 };
                 (o, r.step(None, Some(b)))
             }
+            Op::Reset => {
+                if !rec.reset(id) {
+                    return fail(case, "panic", format!("reset panicked at op {}", i));
+                }
+                r = Ref::new(&case.ind, &case.ps);
+                t = 0;
+                continue;
+            }
             _ => continue,
         };
         t += 1;
@@ -298,7 +306,7 @@ pub fn gen_case(r: &mut Runner, prop: &str, ind: &str, maxp: usize, maxlen: usiz
     let np = crate::ind::arity(ind).unwrap().0;
     let ps: Vec<usize> = (0..np).map(|_| gen::period(&mut r.rng, maxp)).collect();
     let len = r.rng.range(1, maxlen);
-    let scale = *r.rng.pick(&[1e-2, 1.0, 100.0, 1e4, 1e6]);
+    let scale = *r.rng.pick(&[1e-17, 1e-9, 1e-2, 1.0, 100.0, 1e4, 1e6]);
     let bars_only = !crate::ind::has_next_name(ind);
     let use_bars = bars_only || ((ind == "FastStochastic" || ind == "SlowStochastic") && r.rng.chance(0.5));
     let mut c = Case::new(prop, if use_bars { "bars" } else { "scalars" }, ind, &ps, &[]);
@@ -350,7 +358,12 @@ pub fn generate(r: &mut Runner) {
     let maxlen = if r.tier == Tier::Quick { 400 } else { 3000 };
     for i in 0..cases {
         let ind = INDS[i % INDS.len()];
-        let c = gen_case(r, "C03", ind, 512, maxlen);
+        let mut c = gen_case(r, "C03", ind, 512, maxlen);
+        if i % 5 == 2 && c.ops.len() > 3 {
+            let at = r.rng.range(1, c.ops.len() - 1);
+            c.ops.insert(at, Op::Reset);
+            c.kind = format!("{}-with-reset", c.kind);
+        }
         let maxp = c.ps.iter().copied().max().unwrap_or(1);
         let nt = c.ops.len() > maxp + 1;
         r.run(c, nt);
